@@ -689,9 +689,12 @@ class LogicalLinkController(object):
                 log.debug("can't dispatch PDU %s", rcvd_pdu)
 
     def resolve(self, name):
-        if isinstance(name, (bytes, bytearray)):
+        if not isinstance(name, (bytes, bytearray)):
+            name = name.encode('latin')
+        with self.lock:
+            if self.sap[1] is None:
+                return None  # link terminated
             return self.sap[1].resolve(bytes(name))
-        return self.sap[1].resolve(name.encode('latin'))
 
     def socket(self, socket_type):
         if socket_type == RAW_ACCESS_POINT:
@@ -811,7 +814,10 @@ class LogicalLinkController(object):
             raise err.Error(errno.EOPNOTSUPP)
         while True:
             client = socket.accept()
-            self.sap[client.addr].insert_socket(client)
+            with self.lock:
+                if self.sap[client.addr] is None:
+                    raise err.Error(errno.EPIPE)  # link terminated
+                self.sap[client.addr].insert_socket(client)
             log.debug("new data link connection ({0} <=== {1})"
                       .format(client.addr, client.peer))
             if client.send_miu > self.cfg['send-miu']:
@@ -872,8 +878,10 @@ class LogicalLinkController(object):
     def close(self, socket):
         if not isinstance(socket, tco.TransmissionControlObject):
             raise err.Error(errno.ENOTSOCK)
-        if socket.is_bound:
-            self.sap[socket.addr].remove_socket(socket)
+        with self.lock:
+            sap = self.sap[socket.addr] if socket.is_bound else None
+        if sap is not None:
+            sap.remove_socket(socket)
         else:
             socket.close()
 
